@@ -1,5 +1,5 @@
 """Which functions, lemmas and bounded stand-ins decide which property (DESIGN.md sections 0 and 5)."""
-from . import abnf, core, recv
+from . import abnf, core, recv, app
 
 GLOBAL_TRUSTED = [
     "pyvc (AST -> verification conditions) and its encoding of Python semantics (DESIGN.md 2.2, 2.14)",
@@ -9,7 +9,7 @@ GLOBAL_TRUSTED = [
 ]
 
 LEMMAS = {}
-MODULES = [abnf, recv, core]
+MODULES = [abnf, recv, core, app]
 COST = {}
 
 
